@@ -265,3 +265,9 @@ def id_mapping(ids):
 def real(f, *args, **kwargs):
     """Call the real function (natively there is nothing else)."""
     return f(*args, **kwargs)
+
+
+def run_coro(coro):
+    """Run a coroutine object to completion (natively on a fresh event loop)."""
+    import asyncio
+    return asyncio.run(coro)
